@@ -13,7 +13,8 @@
    that nothing else does, is the content of the C08 theorems and an assumption here.
    The wiring the model assumes is checked on the list regenerated from core.Wire (C01_wiring). *)
 From Coq Require Import List Arith Bool.
-From Charon Require Import Common.Quorum Flow.Pipeline Flow.PipelineFacts Flow.WiringCheck Flow.WiringFacts gen.Wiring.
+From Charon Require Import Common.Quorum Flow.Pipeline Flow.PipelineFacts Flow.WiringCheck Flow.WiringFacts gen.Wiring
+  Flow.AppWiringCheck Flow.AppWiringFacts gen.AppWiring.
 Import ListNotations.
 
 (* 2t - n > f for t = ceil(2n/3), f = floor((n-1)/3), every n >= 1; and in general. *)
@@ -80,6 +81,15 @@ Print Assumptions C01_sign_same_all.
 Theorem C01_wiring : wiring_check bindings edges wrappers = true.
 Proof. exact wiring_ok. Qed.
 Print Assumptions C01_wiring.
+
+(* The construction code of the workflow (app/app.go wireCoreWorkflow, regenerated into gen/AppWiring.v)
+   has the shape the theorems assume: the partial-signature store and the aggregator are built with the
+   SAME threshold expression lock.Threshold; the aggregator's verifier is exactly sigagg.NewVerifier(eth2Cl);
+   peer partials pass parsigex.NewEth2Verifier and core.NewDutyGater; the components handed to core.Wire
+   are those constructor results; no further subscriber is attached to the signing path. *)
+Theorem C01_app_wiring : app_wiring_check app_params app_wire_args app_wire_opts app_defs app_hooks = true.
+Proof. exact app_wiring_ok. Qed.
+Print Assumptions C01_app_wiring.
 
 (* Non-vacuity: a trace with equivocation by the Byzantine share, a duplicate delivery after
    aggregation, garbage, and an equivocating client is accepted and passes the monitor. *)
